@@ -663,6 +663,15 @@ static void run_legacy(const Case& c, const Plan& p, Ctx& ctx) {
         TCPStream::payload_type& pl = srv ? st.server_payload() : st.client_payload();
         TCPStream::payload_type& other = srv ? st.client_payload() : st.server_payload();
         VCHECK(ctx, other.empty(), tag + ":data-in-wrong-direction", other.size() << " bytes appeared in the payload of the silent direction");
+        {   // the read-only view of the same stream: const accessors and the connection's identity
+            const TCPStream& cst = st;
+            const TCPStream::payload_type& cpl = srv ? cst.server_payload() : cst.client_payload();
+            VCHECK(ctx, &cpl == &pl, tag + ":const-payload-accessor-differs", "the const payload accessor designates another buffer");
+            const TCPStream::StreamInfo& info = cst.stream_info();
+            VCHECK(ctx, info.client_addr == IPv4Address("10.0.0.1") && info.server_addr == IPv4Address("10.0.0.2") && info.client_port == CPORT && info.server_port == SPORT,
+                   tag + ":stream-info", "stream_info() = " << info.client_addr << ":" << info.client_port << " > " << info.server_addr << ":" << info.server_port);
+            (void)cst.id();
+        }
         if (c.consume) {
             seen.insert(seen.end(), pl.begin(), pl.end());
             pl.clear();
